@@ -72,7 +72,7 @@ FAMILIES = {'jacobi': fam_jacobi, 'hermite_He': fam_hermite_He, 'hermite_H': fam
 
 AB = {'alpha': 'alpha', 'beta': 'beta'}
 FUN_TABLE = {
-    PJ + 'jacobi': ('jacobi', AB), PJ + 'jacobi_seq': ('jacobi', AB), PJ + 'jacobi_der_seq': ('jacobi', {'alpha': 'alphap1', 'beta': 'betap1'}),
+    PJ + 'jacobi': ('jacobi', AB), PJ + 'jacobi_seq': ('jacobi', AB), PJ + 'jacobi_der_seq': ('jacobi', {'alpha': ('alpha', 1), 'beta': ('beta', 1)}),
     PH + 'hermite_He': ('hermite_He', {}), PH + 'hermite_He_seq': ('hermite_He', {}), PH + 'hermite_He_der_seq': ('hermite_He', {}),
     PH + 'hermite_H': ('hermite_H', {}), PH + 'hermite_H_seq': ('hermite_H', {}), PH + 'hermite_H_der_seq': ('hermite_H', {}),
     PL + 'laguerre': ('laguerre', {'alpha': 'alpha'}), PL + 'laguerre_seq': ('laguerre', {'alpha': 'alpha'}),
